@@ -588,11 +588,25 @@ def impl_literal(r2: str) -> str:
     text = "``f`` was deprecated in pkg 1.2.3; please use ``" + r2 + "`` instead."
     doc = ".. deprecated:: 1.2.3\n   " + text
     # the whole of pydoctor's reST path (since ce72216 it replaces U+001C-1E/0085/2028/2029 by a blank first); "broken" =
-    # docutils did not keep the text on the one line of the directive
+    # docutils' own line splitting (observed by wrapping statemachine.string2lines for the duration of the parse) sees
+    # more than the two lines of the directive
     errs: List[Any] = []
-    d = restructuredtext.parse_docstring(doc, errs).to_node()
+    seen: List[int] = []
+    orig = statemachine.string2lines
+
+    def recording(*a: Any, **k: Any) -> Any:
+        lines = orig(*a, **k)
+        seen.append(len(lines))
+        return lines
+    statemachine.string2lines = recording
+    try:
+        d = restructuredtext.parse_docstring(doc, errs).to_node()
+    finally:
+        statemachine.string2lines = orig
+    if not seen or seen[0] != 2:
+        return "broken"
     vm = [c for c in d.children if type(c).__name__ == "versionmodified"]
-    if len(vm) != 1 or len(d.children) != 1 or len(vm[0]) != 1 or "\n" in vm[0][0].astext():
+    if len(vm) != 1 or len(d.children) != 1:
         return "broken"
     para = vm[0][0]
     content = para[1] if len(para) > 1 else para
@@ -1268,10 +1282,10 @@ def gen_project(rng, pidx: int, docformat: str, force_deprecated: bool = False) 
                 # L{text<target>} is epytext's own link syntax: keep the payload from ending in <...>
                 parts.append(f"\nLink L{{{doc_safe(mk('inline-link', fix=lambda p: p + ' z'))}}} done.")
             if fields:
-                parts.append(f"\n@param a: desc {doc_safe(mk('field-param'))}")
+                parts.append(f"\n@param a: desc {doc_safe(mk('field-param'))}" + (" nb\u00a0sp" if rng.random() < 0.3 else ""))
                 if rng.random() < 0.5:
                     parts.append(f"@type a: {doc_safe(mk('field-type'))}")
-                parts.append(f"@return: {doc_safe(mk('field-return'))}")
+                parts.append(f"@return: {doc_safe(mk('field-return'))}" + (" C{a  b}\u00a0" if rng.random() < 0.3 else ""))
                 if rng.random() < 0.5:
                     parts.append(f"@raise {doc_safe(mk('field-raise-name', fix=lambda p: p.replace(' ', '_')))}: when")
         elif docformat == "restructuredtext":
@@ -1281,7 +1295,7 @@ def gen_project(rng, pidx: int, docformat: str, force_deprecated: bool = False) 
                 # `text <target>` is reST's own link syntax: keep the payload from ending in <...>
                 parts.append(f"\nLink `{doc_safe(mk('inline-link', fix=lambda p: p + ' z'))}` done.")
             if fields:
-                parts.append(f"\n:param a: desc {doc_safe(mk('field-param'))}")
+                parts.append(f"\n:param a: desc {doc_safe(mk('field-param'))}" + (" nb\u00a0sp" if rng.random() < 0.3 else ""))
                 if rng.random() < 0.5:
                     parts.append(f":type a: {doc_safe(mk('field-type'))}")
                 parts.append(f":returns: {doc_safe(mk('field-return'))}")
@@ -1408,6 +1422,8 @@ def gen_directive_module(rng, mk, doc_safe) -> str:
         lambda: f".. container:: {D('container-class')}\n\n   body\n\n.. class:: {D('option-class')}\n\nparagraph",
         lambda: f".. python::\n   :class: {D('option-class')}\n\n   print(1)\n\n.. unknown-{D('directive-name', True)}:: arg",
         lambda: f"Title {D('section-title')}\n==================================================\n\ntext\n\n.. contents:: {D('contents-title')}",
+        lambda: f".. _label {D('target-name')}:\n\n>>> print('{D('doctest-text')}')\nx\n\nSee `label {D('reference-name')}`_.",
+        lambda: f".. _{D('target-name', True)}:\n\n.. code:: python\n\n   x = '{D('code-text')}'\n",
         # a lone top-level section (and a lone sub-section): docutils promotes them to document title / subtitle, pydoctor
         # writes them as h2/h3 headings with the moved ids (4065140). NOSUM: the title must be the first thing
         lambda: f"NOSUM{D('promoted-title')} t\n==================================================\n\ntext `{D('reference-name')}`_",
